@@ -83,7 +83,12 @@ impl Extension for RecorderExt {
 const LIFECYCLE: [&str; 5] = ["request", "prepare_request", "parse_query", "validation", "execute"];
 
 /// Check nesting, lifecycle order and (optionally) the resolve count.
-fn check_hooks(n_ext: usize, hooks: &[(usize, &'static str, bool, String)], expect_all: bool, resolve_positions: Option<usize>) -> Vec<String> {
+fn check_hooks(
+    n_ext: usize,
+    hooks: &[(usize, &'static str, bool, String)],
+    expect_all: bool,
+    resolve_positions: Option<(&[(String, vh_model::Ty)], bool)>,
+) -> Vec<String> {
     let mut out = vec![];
     let mut stack: Vec<(usize, &'static str, &str)> = vec![];
     for (k, hook, enter, tag) in hooks {
@@ -121,10 +126,20 @@ fn check_hooks(n_ext: usize, hooks: &[(usize, &'static str, bool, String)], expe
         if expect_all && seq.len() != LIFECYCLE.len() {
             out.push(format!("extension {k}: a successful request ran only {seq:?}"));
         }
-        if let Some(n) = resolve_positions {
-            let r = hooks.iter().filter(|h| h.0 == k && h.2 && h.1 == "resolve").count();
-            if r != n {
-                out.push(format!("extension {k}: resolve hook ran {r} times, {n} fields and list items were resolved"));
+        if let Some((positions, exact_count)) = resolve_positions {
+            // (R) one resolve hook per completed position. Where the same response key was written more than
+            // once in a selection set the crate resolves it once per occurrence (known finding of C04, judged
+            // there): the hook then legitimately runs once per resolution, so only the *set* of hooked
+            // positions is compared for such documents.
+            let hooked: Vec<&str> = hooks.iter().filter(|h| h.0 == k && h.2 && h.1 == "resolve").map(|h| h.3.as_str()).collect();
+            let want: std::collections::BTreeSet<&str> = positions.iter().map(|p| p.0.as_str()).collect();
+            let got: std::collections::BTreeSet<&str> = hooked.iter().copied().collect();
+            if want != got {
+                let missing: Vec<&&str> = want.difference(&got).take(4).collect();
+                let extra: Vec<&&str> = got.difference(&want).take(4).collect();
+                out.push(format!("extension {k}: resolve hook positions differ from the resolved fields and list items: no hook for {missing:?}, hook without a resolved position {extra:?}"));
+            } else if exact_count && hooked.len() != positions.len() {
+                out.push(format!("extension {k}: resolve hook ran {} times, {} fields and list items were resolved", hooked.len(), positions.len()));
             }
         }
     }
@@ -239,10 +254,7 @@ pub fn main() {
 fn one(run: &Run, schemas: &[AnySchema], case: &Case, valid: bool) {
     let reference = if valid { Some(case.reference()) } else { None };
     if let Some(r) = &reference {
-        if r.merged_groups > 0 && !run.feature("repeated_key") {
-            run.count("cases_skipped_repeated_key", 1);
-            return;
-        }
+        run.count(if r.merged_groups > 0 { "cases_with_repeated_key_set_compare" } else { "cases_exact_resolve_count" }, 1);
     }
     let executes = reference.as_ref().map(|r| r.request_error.is_none()).unwrap_or(false);
     let mut base: Option<J> = None;
@@ -274,10 +286,9 @@ fn one(run: &Run, schemas: &[AnySchema], case: &Case, valid: bool) {
             }
         }
         if n > 0 {
-            let positions = if executes && reference.as_ref().map(|r| r.errors.is_empty()).unwrap_or(false) {
-                Some(reference.as_ref().unwrap().positions.len())
-            } else {
-                None
+            let positions = match &reference {
+                Some(r) if executes && r.errors.is_empty() => Some((r.positions.as_slice(), r.merged_groups == 0)),
+                _ => None,
             };
             problems.extend(check_hooks(n, &hooks, executes, positions));
         }
